@@ -792,8 +792,12 @@ TOP:
 				}
 			}
 		case method != nil:
-			args := root.formReflectArgs(ov, vars, field)
-			mva := fd.method.Call(args)
+			args, aerr := root.formReflectArgs(ov, vars, field, method)
+			if aerr != nil {
+				ea = append(ea, resWarn(field.line, field.col, "%s", aerr))
+				return
+			}
+			mva := method.Call(args)
 			switch len(mva) {
 			case 1:
 				value = mva[0].Interface()
@@ -810,19 +814,69 @@ TOP:
 	return
 }
 
-func (root *Root) formReflectArgs(ov reflect.Value, vars map[string]interface{}, field *Field) (args []reflect.Value) {
-	args = make([]reflect.Value, 0, len(field.Args)+1)
+func (root *Root) formReflectArgs(
+	ov reflect.Value,
+	vars map[string]interface{},
+	field *Field,
+	method *reflect.Value) (args []reflect.Value, err error) {
+
+	// The arguments come from the request. Make sure the call can be made
+	// with them, reflect.Value.Call panics if the number or the types of the
+	// arguments do not fit the method.
+	mt := method.Type()
+	avs := field.sortedArgs()
+	if mt.IsVariadic() || mt.NumIn() != len(avs)+1 {
+		return nil, fmt.Errorf("%w: %s takes %d arguments, %d provided", ErrMeta, field.Name, mt.NumIn()-1, len(avs))
+	}
+	if !ov.Type().AssignableTo(mt.In(0)) {
+		return nil, fmt.Errorf("%w: %s is bound to a %s, not a %s", ErrMeta, field.Name, mt.In(0), ov.Type())
+	}
+	args = make([]reflect.Value, 0, len(avs)+1)
 	args = append(args, ov)
 	// Build the args by combining provided args and variable values as
 	// appropriate.
-	for _, av := range field.sortedArgs() {
-		if vr, ok := av.Value.(Var); ok && vars != nil {
-			args = append(args, reflect.ValueOf(vars[string(vr)]))
-		} else {
-			args = append(args, reflect.ValueOf(av.Value))
+	for i, av := range avs {
+		var v interface{}
+		name := ""
+		if av != nil {
+			name = av.Arg
+			v = av.Value
+			if vr, ok := v.(Var); ok {
+				v = vars[string(vr)]
+			}
 		}
+		pt := mt.In(i + 1)
+		if v == nil {
+			switch pt.Kind() {
+			case reflect.Ptr, reflect.Interface, reflect.Slice, reflect.Map:
+				args = append(args, reflect.Zero(pt))
+				continue
+			}
+			return nil, fmt.Errorf("%w: argument %d %s of %s is missing or null", ErrCoerce, i+1, name, field.Name)
+		}
+		rv := reflect.ValueOf(v)
+		switch {
+		case rv.Type().AssignableTo(pt):
+			// ok as is
+		case isNumberKind(rv.Kind()) && isNumberKind(pt.Kind()),
+			rv.Kind() == reflect.String && pt.Kind() == reflect.String:
+			rv = rv.Convert(pt)
+		default:
+			return nil, fmt.Errorf("%w a %T into a %s for argument %s of %s", ErrCoerce, v, pt, name, field.Name)
+		}
+		args = append(args, rv)
 	}
 	return
+}
+
+func isNumberKind(k reflect.Kind) bool {
+	switch k {
+	case reflect.Int, reflect.Int8, reflect.Int16, reflect.Int32, reflect.Int64,
+		reflect.Uint, reflect.Uint8, reflect.Uint16, reflect.Uint32, reflect.Uint64,
+		reflect.Float32, reflect.Float64:
+		return true
+	}
+	return false
 }
 
 func (root *Root) resolveInline(
